@@ -53,6 +53,8 @@ def diff(sel: List[int], fs: int) -> bool:
             return True
         kw = dict(frame_size=fs, delimited=P["delimited"], names=P["names"], prefixes=P["prefixes"], datatypes=P["datatypes"],
                   generalized=False, rdf_star=False)
+        if P.get("logical") is not None:
+            kw["logical"] = P["logical"]
         entry = P["entry"]
         dg = pj.gen_serialize(items, phys, pj.make_options(phys, **kw), entry=entry)
         dr = pj.rdf_serialize(items, phys, pj.make_options(phys, **kw), entry=entry)
